@@ -25,6 +25,7 @@ mod c13;
 mod c14;
 mod c17;
 mod c18;
+mod c19;
 mod c20;
 
 struct PropDef {
@@ -109,6 +110,11 @@ const PROPS: &[PropDef] = &[PropDef {
     level: "exploration",
     run: c18::run,
     replay: c18::replay,
+}, PropDef {
+    id: "C19",
+    level: "exploration",
+    run: c19::run,
+    replay: c19::replay,
 }, PropDef {
     id: "C20",
     level: "exploration",
